@@ -781,6 +781,7 @@ From J1939 Require Import CodecGlue.
 ''',
     'Dm14Gen': '''(* GENERATED by tools/py2coq.py from /repo/j1939 — do not edit *)
 From J1939 Require Import Base.
+Definition le_bytes4 (v : Z) : list Z := [v mod 256; (v / 256) mod 256; (v / 65536) mod 256; (v / 16777216) mod 256].
 ''',
     'SkelGen': '''(* GENERATED by tools/py2coq.py from /repo/j1939 — do not edit *)
 From J1939 Require Import Base SkelDefs.
@@ -805,6 +806,7 @@ def main():
         import py2coq_ext
         py2coq_ext.install(tr, sys.modules[__name__])
         py2coq_ext.install_skel(tr, sys.modules[__name__])
+        py2coq_ext.install_dm14(tr, sys.modules[__name__])
     except ImportError:
         pass
     tr.run_all()
